@@ -1,7 +1,8 @@
 (* C13 — Stream combinators and pipelines of them are transparent. *)
-From SbModel Require Import Model.Procs Spec.StreamSpec Proofs.SinksP Proofs.StreamsP.
+From SbModel Require Import Model.Procs Spec.StreamSpec Spec.Pipeline Spec.DecodeGrammar Proofs.SinksP Proofs.StreamsP Proofs.HashP Proofs.PipelineP.
 Local Open Scope nat_scope.
 
+Local Open Scope nat_scope.
 (* every term built from the stream combinators yields exactly the tokens its definition (the denotation `den`: pass-through, concatenation, matching subsequence, splicing) implies and ends exactly when its sources end; real_faults only excludes the degenerate 'failure with a nil error' *)
 Theorem c13_run_is_den p :
   tame p = true -> real_faults p = true ->
@@ -9,39 +10,89 @@ Theorem c13_run_is_den p :
     let '(ts, e, _) := run fuel p in (ts, e) = den p.
 Proof. exact (run_den_partial p). Qed.
 
+Local Open Scope nat_scope.
 (* tee passes the source through unchanged *)
 Theorem c13_tee s sinks :
   den (PTee s sinks PNil) = den s.
 Proof. exact (tee_transparent s sinks). Qed.
 
+Local Open Scope nat_scope.
 (* stream iteration passes the source through unchanged *)
 Theorem c13_iter_stream s :
   den (PIterStream s PNil) = den s.
 Proof. exact (iter_stream_transparent s). Qed.
 
+Local Open Scope nat_scope.
 Theorem c13_iter_stream_then s c :
   den (PIterStream s c) = seq_den (den s) (den c).
 Proof. exact (iter_stream_then s c). Qed.
 
+Local Open Scope nat_scope.
 (* concatenation yields the concatenation *)
 Theorem c13_concat ss :
   den (PConcat ss) = fold_right (fun s acc => seq_den (den s) acc) ([], ENone) ss.
 Proof. exact (concat_is_concat ss). Qed.
 
+Local Open Scope nat_scope.
 Theorem c13_concat_tokens tss :
   den (PConcat (map (fun ts => PTokens ts PNil) tss)) = (concat tss, ENone).
 Proof. exact (concat_tokens tss). Qed.
 
+Local Open Scope nat_scope.
 (* filtering yields the matching subsequence *)
 Theorem c13_filter ts p :
   den (PFilter (PTokens ts PNil) p PNil) = (filter (holds p) ts, ENone).
 Proof. exact (filter_is_filter ts p). Qed.
 
+Local Open Scope nat_scope.
 Theorem c13_run_tee s sinks :
   tame (PTee s sinks PNil) = true -> real_faults s = true ->
   exists n, forall fuel, n <= fuel ->
     let '(ts, e, _) := run fuel (PTee s sinks PNil) in (ts, e) = den s.
 Proof. exact (run_tee_transparent s sinks). Qed.
+
+Local Open Scope N_scope.
+(* every one of the 16 identity-preserving stage kinds maps a value stream in the domain to the identical stream *)
+Theorem c13_stage_identity H R pf v s :
+  wf_value v = true -> ref_free v = true ->
+  Forall (wf_enc default_maxlen) (flatten v) ->
+  (forall x, H x <> []) ->
+  any_roundtrip R pf (flatten v) = Ok (flatten v) ->
+  stage_side H v s ->
+  run_stage H R pf s (flatten v) = Ok (flatten v).
+Proof. exact (stage_identity H R pf v s). Qed.
+
+Local Open Scope N_scope.
+(* consequently ANY program composed of such stages maps every value stream in the domain to an identical stream ... (the schema-less round trip of the input stream is property C11, a premise here; no_collision says the hash does not collide on the substituted sub-values) *)
+Theorem c13_pipeline H R pf v p :
+  wf_value v = true -> ref_free v = true ->
+  Forall (wf_enc default_maxlen) (flatten v) ->
+  (forall x, H x <> []) ->
+  any_roundtrip R pf (flatten v) = Ok (flatten v) ->
+  Forall (stage_side H v) p ->
+  run_pipeline H R pf p (flatten v) = Ok (flatten v).
+Proof. exact (pipeline_identity H R pf v p). Qed.
+
+Local Open Scope N_scope.
+(* ... with an identical hash *)
+Theorem c13_pipeline_hash H R pf v p :
+  wf_value v = true -> ref_free v = true ->
+  Forall (wf_enc default_maxlen) (flatten v) ->
+  (forall x, H x <> []) ->
+  any_roundtrip R pf (flatten v) = Ok (flatten v) ->
+  Forall (stage_side H v) p ->
+  exists out, run_pipeline H R pf p (flatten v) = Ok out /\ hash_result H out = inl (mhash H v).
+Proof. exact (pipeline_hash H R pf v p). Qed.
+
+Local Open Scope nat_scope.
+Theorem c13_pipeline_injective_hash H R pf v p L :
+  wf_value v = true -> ref_free v = true ->
+  Forall (wf_enc default_maxlen) (flatten v) ->
+  inj H -> fixed_len H L -> 0 < L ->
+  any_roundtrip R pf (flatten v) = Ok (flatten v) ->
+  (forall sel, In (StSubstDeref sel) p -> forall j, In j sel -> ~ In j (end_indices 0 v)) ->
+  run_pipeline H R pf p (flatten v) = Ok (flatten v).
+Proof. exact (pipeline_identity_inj H R pf v p L). Qed.
 
 Print Assumptions c13_run_is_den.
 Print Assumptions c13_tee.
@@ -51,3 +102,7 @@ Print Assumptions c13_concat.
 Print Assumptions c13_concat_tokens.
 Print Assumptions c13_filter.
 Print Assumptions c13_run_tee.
+Print Assumptions c13_stage_identity.
+Print Assumptions c13_pipeline.
+Print Assumptions c13_pipeline_hash.
+Print Assumptions c13_pipeline_injective_hash.
